@@ -27,15 +27,21 @@ CONSTANTS Buf,        \* line-buffer-size
 FixEmit == "D1" \in Fixes
 
 NoFile == 99
+NotNeeded == 0 - 1000
 Row(t, k, d) == [t |-> t, k |-> k, d |-> d]
 
 InitS == [st |-> "Unknown", mf |-> NoFile, pf |-> NoFile, mev |-> "none", pev |-> "none",
           dlf |-> NoFile, mode |-> 0, cur |-> <<>>, handled |-> <<>>,
           mb |-> <<>>, pb |-> <<>>, ob |-> <<>>, w |-> <<>>, hh |-> 0, seck |-> 0, bin |-> FALSE,
+          src |-> "Unknown",                    \* Source: "Unknown" | "Git" | "DiffU"
+          m3 |-> NotNeeded,                     \* AmbiguousDiffMinusCounter (NotNeeded, or old-side lines still due)
           comb |-> FALSE,                       \* DiffType::Combined
           mcp |-> "", mo |-> <<>>, ma |-> <<>>, mt |-> <<>>]   \* merge conflict phase and buffered lines
 
 HunkStates == {"HunkHeader", "HunkZero", "HunkMinus", "HunkPlus"}
+ThreeDashesExpected(s) == s.m3 = NotNeeded \/ s.m3 <= 0
+CountLine(s) == IF s.m3 = NotNeeded THEN s ELSE [s EXCEPT !.m3 = @ - 1]
+
 
 \* Painter::paint_buffered_minus_and_plus_lines (unified view: all minus rows, then all plus rows)
 Flush(s) == [s EXCEPT !.ob = @ \o [i \in 1..Len(s.mb) |-> Row("minus", s.mb[i], <<>>)]
@@ -56,12 +62,14 @@ Label(mf, pf, mev) ==
   ELSE "modified"
 
 \* _handle_diff_header_header_line + write_generic_diff_header_header_line (consumes mode_info)
-HeaderRow(s) == Row("fileHdr", s.seck, <<s.mf, s.pf, Label(s.mf, s.pf, s.mev), s.mode, s.bin>>)
+\* (diff -u source: "comparing" form, both paths, the label of a modified file)
+HeaderRow(s) == Row("fileHdr", s.seck, IF s.src = "DiffU" THEN <<s.mf, s.pf, "comparing", s.mode, s.bin>>
+                                       ELSE <<s.mf, s.pf, Label(s.mf, s.pf, s.mev), s.mode, s.bin>>)
 WriteHeader(s) == [Direct(s, HeaderRow(s)) EXCEPT !.mode = 0, !.handled = s.cur]
 
 \* handle_pending_line_with_diff_name
 Pending(s) ==
-  IF s.st # "DiffHeader" THEN s
+  IF s.st # "DiffHeader" /\ s.src # "DiffU" THEN s
   ELSE LET s1 == IF FixEmit THEN Emit(s) ELSE s IN
        IF s1.mode # 0
        THEN [Direct(s1, Row("fileHdr", s1.seck, <<s1.dlf, s1.dlf, "modified", s1.mode, FALSE>>))
@@ -98,7 +106,11 @@ HFileOp(s, k, line) ==
 \* handle_diff_header_minus_line: never claims the line (returns false unless color-only)
 HMinusHdr(s, k, line) ==
   LET ev == CASE line.c = "renfrom" -> "rename" [] line.c = "copyfrom" -> "copy" [] OTHER -> "change"
-      s1 == Flush([s EXCEPT !.mf = line.f, !.mev = ev])
+      \* ("D18": in a diff -u stream a "---" line opens a new file: the next "+++" gets its header again)
+      s0 == IF s.src = "DiffU" THEN [s EXCEPT !.st = "DiffHeader", !.hh = 0,
+                                              !.seck = IF line.kd = "dufile" THEN k ELSE @,
+                                              !.handled = IF "D18" \in Fixes /\ line.c \in {"mmm", "minus3"} THEN <<>> ELSE @] ELSE s
+      s1 == Flush([s0 EXCEPT !.mf = line.f, !.mev = ev])
   IN FallThrough(s1, k)
 
 \* handle_diff_header_plus_line: writes the file header, then falls through
@@ -109,7 +121,8 @@ HPlusHdr(s, k, line) ==
   IN FallThrough(s2, k)
 
 \* handle_hunk_header_line: only remembers the header
-HHunkHeader(s, k) == [s EXCEPT !.st = "HunkHeader", !.hh = k]
+HHunkHeader(s, k, line) == [s EXCEPT !.st = "HunkHeader", !.hh = k,
+                                        !.m3 = IF @ = NotNeeded THEN @ ELSE line.g]   \* count_from(old-side length)
 
 \* handle_diff_header_mode_line
 HMode(s, k, line) ==
@@ -130,12 +143,12 @@ EmitHH(s) == IF s.hh = 0 THEN s ELSE [Direct(Emit(Flush(s)), Row("hunkHdr", s.hh
 HHunkLine(s, k, line) ==
   LET s0 == IF Len(s.mb) > Buf \/ Len(s.pb) > Buf THEN Flush(s) ELSE s
       s1 == EmitHH(s0)
-      s2 == CASE line.c = "minus" ->
+      s2 == CASE line.c \in {"minus", "minus3"} ->
                    LET a == IF s1.st = "HunkPlus" THEN Flush(s1) ELSE s1
-                   IN [a EXCEPT !.mb = Append(@, k), !.st = "HunkMinus"]
-              [] line.c = "plus" -> [s1 EXCEPT !.pb = Append(@, k), !.st = "HunkPlus"]
+                   IN CountLine([a EXCEPT !.mb = Append(@, k), !.st = "HunkMinus"])
+              [] line.c \in {"plus", "plus3"} -> [s1 EXCEPT !.pb = Append(@, k), !.st = "HunkPlus"]
               [] line.c = "zero" ->
-                   LET a == Flush(s1) IN [a EXCEPT !.ob = Append(@, Row("zero", k, <<>>)), !.st = "HunkZero"]
+                   LET a == Flush(s1) IN CountLine([a EXCEPT !.ob = Append(@, Row("zero", k, <<>>)), !.st = "HunkZero"])
               [] OTHER ->
                    LET a == Flush(s1) IN [a EXCEPT !.ob = Append(@, Row("raw", k, <<>>)), !.st = "HunkZero"]
   IN Emit(s2)
@@ -167,19 +180,30 @@ ClaimsConflict(s, line) ==
   \/ s.st = "MergeConflict"
 
 \* The handler chain.  Guards are those of the test_* functions for git input.
-Step(s, k, line) ==
-  LET c == line.c hdr == (s.st = "DiffHeader") IN
+\* detect_source (first line that says where the input comes from) and the start of old-side counting
+Detect(s, line) ==
+  IF s.src # "Unknown" THEN s
+  ELSE IF line.c \in {"commit", "diff"} THEN [s EXCEPT !.src = "Git"]
+  ELSE IF line.c = "du" THEN [s EXCEPT !.src = "DiffU"]
+  ELSE IF line.c \in {"mmm", "minus3"} THEN [s EXCEPT !.src = "DiffU", !.m3 = 0]
+  ELSE s
+
+StepD(s, k, line) ==
+  LET c == line.c hdr == (s.st = "DiffHeader" \/ s.src = "DiffU") IN
   CASE c = "commit" -> HCommit(s, k)
-    [] c = "diff"   -> HDiff(s, k, line)
+    [] c \in {"diff", "du"} -> HDiff(s, k, line)
     [] c \in {"newfile", "delfile"} /\ hdr -> HFileOp(s, k, line)
-    [] c \in {"mmm", "renfrom", "copyfrom"} /\ hdr -> HMinusHdr(s, k, line)
-    [] c \in {"ppp", "rento", "copyto"} /\ hdr -> HPlusHdr(s, k, line)
-    [] c = "hh" /\ s.st # "MergeConflict" -> HHunkHeader(s, k)
+    [] c \in {"mmm", "minus3"} /\ hdr /\ ThreeDashesExpected(s) -> HMinusHdr(s, k, line)
+    [] c \in {"renfrom", "copyfrom"} /\ hdr -> HMinusHdr(s, k, line)
+    [] c \in {"ppp", "rento", "copyto", "plus3"} /\ hdr -> HPlusHdr(s, k, line)
+    [] c = "hh" /\ s.st # "MergeConflict" -> HHunkHeader(s, k, line)
     [] c \in {"oldmode", "newmode"} -> HMode(s, k, line)
     [] c = "binary" -> HBinary(s, k, line)
     [] ClaimsConflict(s, line) -> HConflict(s, k, line)
     [] s.st \in HunkStates -> HHunkLine(s, k, line)
     [] OTHER -> FallThrough(s, k)
+
+Step(s, k, line) == StepD(Detect(s, line), k, line)
 
 \* end of input: handle_pending_line_with_diff_name; paint_buffered...; emit
 Finish(s) == Emit(Flush(Pending(s)))
